@@ -246,19 +246,20 @@ pub fn c14_case(case: &Value, acc: &mut CompAcc) {
         _ => {
             let probes = case["probes"].as_u64().unwrap();
             // three add-sets: well mixed, sequential, high-bits-only; probes are always well mixed and disjoint
-            // structured neighbours: add hashes whose low half is zero (well-mixed high half), probe
-            // the never-added hashes that differ from an added one only in a few low bits (+1, +2, +3)
+            // structured neighbours: add hashes whose low half is zero (well-mixed high half) or
+            // well-mixed hashes, probe the never-added hashes that differ from an added one only in
+            // a few low bits (+1, +2, +3) or only in the two top bits
             // (the mirror image, hashes with a zero high half probed at a flipped top bit, is not
             // checked: such hashes all share the base position by construction of this filter and
             // their strides overlap, so the unchanged filter reports 13 % of those probes present
             // at capacity 100 / rate 0.01; no Bloom filter bounds the rate for adversarial sets)
-            for (addfam, deltas) in [("high-only", [1u64, 2, 3])] {
+            for (addfam, how, deltas) in [("high-only", "low", [1u64, 2, 3]), ("mixed", "low", [1, 2, 3]), ("mixed", "top", [1 << 63, 1 << 62, 3 << 62])] {
                 let mut b = VBloom::new(cap as usize, rate);
                 let mut set = HashSet::new();
                 for i in 0..cap {
                     let mut sd = i.wrapping_mul(2).wrapping_add(12345);
                     let x = splitmix(&mut sd);
-                    let h = if addfam == "high-only" { x & !0xffff_ffffu64 } else { x & 0xffff_ffff };
+                    let h = if addfam == "high-only" { x & !0xffff_ffffu64 } else { x };
                     b.add(h);
                     set.insert(h);
                     acc.ops += 1;
@@ -266,7 +267,7 @@ pub fn c14_case(case: &Value, acc: &mut CompAcc) {
                 let (mut fp, mut m) = (0u64, 0u64);
                 for &h in &set {
                     for d in deltas {
-                        let p = if addfam == "high-only" { h.wrapping_add(d) } else { h ^ d };
+                        let p = if how == "low" { h.wrapping_add(d) } else { h ^ d };
                         if set.contains(&p) {
                             continue;
                         }
@@ -279,13 +280,13 @@ pub fn c14_case(case: &Value, acc: &mut CompAcc) {
                 }
                 let frac = fp as f64 / (m as f64).max(1.0);
                 let allowed = 3.0 * rate + 0.005 + 2.0 / (m as f64).max(1.0);
-                acc.state(&(cap, rate.to_bits(), addfam, fp), fp > 0);
+                acc.state(&(cap, rate.to_bits(), addfam, how, fp), fp > 0);
                 if frac > allowed {
                     acc.fail(
                         "bloom-false-positive-neighbours",
                         format!(
                             "capacity {} target rate {}: after adding {} distinct {} hashes, {} of the {} never-added hashes differing from an added one only in a few {} bits are reported present ({:.4} > allowed {:.4})",
-                            cap, rate, set.len(), addfam, fp, m, if addfam == "high-only" { "low" } else { "top" }, frac, allowed
+                            cap, rate, set.len(), addfam, fp, m, how, frac, allowed
                         ),
                     );
                     return;
